@@ -962,6 +962,96 @@ example : (exFull.pushTime 7).1.fast = 550 := by
   decide
 example : AReach 2000 (({} : Analyzer).pushTime 1700).1 := .push _ _ .init (by decide)
 
+/-- Analyzers reachable by any sequence of `push_time` with samples in `[lo, hi]`. -/
+inductive AReachB (lo hi : Nat) : Analyzer → Prop
+  | init : AReachB lo hi {}
+  | push (a : Analyzer) (t : Nat) : AReachB lo hi a → lo ≤ t → t ≤ hi → AReachB lo hi (a.pushTime t).1
+
+theorem AReachB.toAReach {lo hi : Nat} {a : Analyzer} (h : AReachB lo hi a) : AReach hi a := by
+  induction h with
+  | init => exact .init
+  | push a t _ _ h2 ih => exact .push a t ih h2
+
+/-- The window positions below `index` always hold samples that were actually pushed (never the initial
+zeros): so at every roll-over (`index = TIME_TRACE_SIZE`) the whole window, and with it each of the three
+order statistics that enter the averages, is a pushed sample. -/
+theorem window_prefix_fresh {lo hi : Nat} {a : Analyzer} (h : AReachB lo hi a) :
+    a.trace.length = TIME_TRACE_SIZE ∧ a.index ≤ TIME_TRACE_SIZE ∧
+    ∀ j x, j < a.index → a.trace[j]? = some x → lo ≤ x ∧ x ≤ hi := by
+  induction h with
+  | init =>
+    refine ⟨by simp, Nat.zero_le _, ?_⟩
+    intro j x hj
+    exact absurd hj (Nat.not_lt_zero _)
+  | push a t _ h1 h2 ih =>
+    obtain ⟨hl, hle, ih⟩ := ih
+    by_cases hidx : a.index < TIME_TRACE_SIZE
+    · have htr : (a.pushTime t).1.trace = a.trace.set a.index t := by simp [Analyzer.pushTime, hidx]
+      have hix : (a.pushTime t).1.index = a.index + 1 := by simp [Analyzer.pushTime, hidx]
+      refine ⟨by rw [htr, List.length_set]; exact hl, by omega, ?_⟩
+      intro j x hj hx
+      rw [htr, List.getElem?_set] at hx
+      rw [hix] at hj
+      by_cases hji : a.index = j
+      · rw [if_pos hji] at hx
+        split at hx
+        · cases hx; exact ⟨h1, h2⟩
+        · cases hx
+      · rw [if_neg hji] at hx
+        exact ih j x (by omega) hx
+    · have htr : (a.pushTime t).1.trace = (sortedWin a.trace).set 0 t := by
+        simp [Analyzer.pushTime, hidx, sortedWin]
+      have hix : (a.pushTime t).1.index = 1 := by simp [Analyzer.pushTime, hidx]
+      refine ⟨by rw [htr, List.length_set, sortedWin_length]; exact hl, by rw [hix]; decide, ?_⟩
+      intro j x hj hx
+      rw [hix] at hj
+      have hj0 : j = 0 := by omega
+      subst hj0
+      rw [htr, List.getElem?_set] at hx
+      simp only [if_true] at hx
+      split at hx
+      · cases hx; exact ⟨h1, h2⟩
+      · cases hx
+
+/-- For every sequence of samples in `[lo, hi]` (with `2 * hi` inside `u64`, `hi ≥ 1500`): each threshold
+stays between the smallest and the largest of the samples seen and its initial value. -/
+theorem thresholds_within_sample_range {lo hi : Nat} (h1500 : 1500 ≤ hi) (hsat : 2 * hi ≤ U64_MAX)
+    {a : Analyzer} (h : AReachB lo hi a) :
+    (min lo 1000 ≤ a.fast ∧ a.fast ≤ hi) ∧ (min lo 1250 ≤ a.normal ∧ a.normal ≤ hi) ∧
+      (min lo 1500 ≤ a.low ∧ a.low ≤ hi) := by
+  have hup := fun {a} (h : AReachB lo hi a) => thresholds_bounded_by_samples h1500 h.toAReach
+  induction h with
+  | init =>
+    refine ⟨⟨?_, ?_⟩, ⟨?_, ?_⟩, ⟨?_, ?_⟩⟩
+    · show min lo 1000 ≤ 1000; omega
+    · show 1000 ≤ hi; omega
+    · show min lo 1250 ≤ 1250; omega
+    · show 1250 ≤ hi; omega
+    · show min lo 1500 ≤ 1500; omega
+    · show 1500 ≤ hi; omega
+  | push a t hr h1 h2 ih =>
+    obtain ⟨hl, hw, uf, un, ul⟩ := hup hr
+    obtain ⟨_, _, uf', un', ul'⟩ := hup (AReachB.push a t hr h1 h2)
+    obtain ⟨⟨lf, _⟩, ⟨ln, _⟩, ⟨ll, _⟩⟩ := ih
+    by_cases hidx : a.index < TIME_TRACE_SIZE
+    · obtain ⟨e1, e2, e3⟩ := (threshold_update_between a t hl).1 hidx
+      rw [e1, e2, e3]
+      exact ⟨⟨lf, uf⟩, ⟨ln, un⟩, ⟨ll, ul⟩⟩
+    · obtain ⟨qf, hqf, qn, hqn, ql, hql, _, b1, _, b2, _, b3⟩ := (threshold_update_between a t hl).2 hidx
+      obtain ⟨_, hle, hfresh⟩ := window_prefix_fresh hr
+      have hidx' : a.index = TIME_TRACE_SIZE := by omega
+      have fresh : ∀ q, q ∈ a.trace → lo ≤ q ∧ q ≤ hi := by
+        intro q hq
+        obtain ⟨j, hj, hjq⟩ := List.mem_iff_getElem.mp hq
+        exact hfresh j q (by omega) (by rw [List.getElem?_eq_getElem hj, hjq])
+      have ⟨f1, f2⟩ := fresh qf hqf
+      have ⟨n1, n2⟩ := fresh qn hqn
+      have ⟨l1, l2⟩ := fresh ql hql
+      have c1 := b1 (by omega); have c2 := b2 (by omega); have c3 := b3 (by omega)
+      refine ⟨⟨by omega, uf'⟩, ⟨by omega, un'⟩, ⟨by omega, ul'⟩⟩
+
+example : AReachB 100 2000 (({} : Analyzer).pushTime 1700).1 := .push _ _ .init (by decide) (by decide)
+
 end Inflight
 
 /-! ## 4. Header map -/
@@ -1434,6 +1524,102 @@ example : locateLatestCommonBlock (fun i => if i ≤ 100 then some i else none) 
     [198, 197, 196, 195, 194, 193, 192, 191, 190, 189, 187, 183, 175, 159, 127, 0] = some 0 ∧
     locateLatestCommonBlock (fun i => if i ≤ 100 then some i else none) exFar 0
     [198, 197, 196, 195, 194, 193, 192, 191, 190, 189, 187, 183, 175, 159, 127, 1, 0] = some 1 := by decide
+
+theorem locateWalk_on_main (numOnMain : Nat → Option Nat) (blk : Nat → Option Hdr) (latest fuel : Nat) :
+    ∀ h, locateWalk numOnMain blk latest fuel h = latest ∨
+      ∃ id, numOnMain id = some (locateWalk numOnMain blk latest fuel h) := by
+  induction fuel with
+  | zero => intro h; left; rfl
+  | succ f ih =>
+    intro h
+    unfold locateWalk
+    cases blk h with
+    | none => left; rfl
+    | some hd =>
+      cases hm : numOnMain h with
+      | some n => right; exact ⟨h, hm⟩
+      | none => exact ih hd.parent
+
+/-- `locate_latest_common_block` on ANY list a peer may send (unknown hashes, any order, repetitions):
+it answers exactly when the list is non-empty and ends in the genesis hash — the `expect("locator last
+checked")` cannot fire when genesis is on the main chain — and the answer is always the number of a
+block of our main chain. -/
+theorem locate_any_list (numOnMain : Nat → Option Nat) (blk : Nat → Option Hdr) (genesis : Nat)
+    (hg : numOnMain genesis = some 0) (L : List Nat) :
+    ((locateLatestCommonBlock numOnMain blk genesis L).isSome ↔ L.getLast? = some genesis) ∧
+    ∀ n, locateLatestCommonBlock numOnMain blk genesis L = some n → ∃ id, numOnMain id = some n := by
+  unfold locateLatestCommonBlock
+  cases hlast : L.getLast? with
+  | none => simp
+  | some last =>
+    simp only
+    by_cases hne : last = genesis
+    · subst hne
+      simp only [bne_self_eq_false, Bool.false_eq_true, if_false]
+      obtain ⟨⟨index, n0⟩, hf⟩ := firstOnMain_some numOnMain L 0 last 0 (List.mem_of_getLast? hlast) hg
+      obtain ⟨_, e, _, hen, _⟩ := firstOnMain_spec numOnMain L 0 index n0 hf
+      rw [hf]
+      simp only
+      split
+      · exact ⟨by simp, fun n hn => ⟨e, by cases hn; exact hen⟩⟩
+      · split
+        · rename_i header _
+          refine ⟨by simp, fun n hn => ?_⟩
+          cases hn
+          rcases locateWalk_on_main numOnMain blk n0 (header.number + 1) header.parent with h | h
+          · rw [h]; exact ⟨e, hen⟩
+          · exact h
+        · exact ⟨by simp, fun n hn => ⟨e, by cases hn; exact hen⟩⟩
+    · have : (last != genesis) = true := by simpa using hne
+      simp [this, hne]
+
+/-- Frame: the four writers of the peers' header bookkeeping touch the named peer only — every other
+peer's best known header and last common header stay as they were. -/
+theorem peers_ops_frame (ps : PeersSt) (p q : Nat) (hq : q ≠ p) :
+    (ps.connected p).get q = ps.get q ∧ (ps.disconnected p).get q = ps.get q ∧
+    (∀ hi, (ps.maySetBestKnown p hi).get q = ps.get q) ∧
+    (∀ x, (ps.setLastCommon p x).get q = ps.get q) := by
+  have hmod : ∀ (l : PeersSt) (f : PeerHdrs → PeerHdrs), (PeersSt.modify l p f).get q = l.get q := by
+    intro l f
+    induction l with
+    | nil => rfl
+    | cons e t ih =>
+      simp only [PeersSt.modify, PeersSt.get, List.map_cons, List.find?_cons] at ih ⊢
+      by_cases he : e.1 = p
+      · have h1 : (e.1 == p) = true := by simpa using he
+        have h2 : (e.1 == q) = false := by simp [he]; omega
+        simp only [h1, if_true, h2]
+        exact ih
+      · have h1 : (e.1 == p) = false := by simpa using he
+        simp only [h1, Bool.false_eq_true, if_false]
+        cases (e.1 == q)
+        · exact ih
+        · rfl
+  refine ⟨?_, ?_, fun hi => hmod _ _, fun x => hmod _ _⟩
+  · unfold PeersSt.connected
+    split
+    · rfl
+    · simp only [PeersSt.get, List.find?_append]
+      cases List.find? (fun e => e.1 == q) ps with
+      | some e => rfl
+      | none =>
+        have : (p == q) = false := by simp; omega
+        simp [this]
+  · unfold PeersSt.disconnected PeersSt.get
+    congr 1
+    induction ps with
+    | nil => rfl
+    | cons e t ih =>
+      by_cases he : e.1 = p
+      · have h1 : (e.1 != p) = false := by simp [he]
+        have h2 : (e.1 == q) = false := by simp [he]; omega
+        simp only [List.filter_cons, h1, Bool.false_eq_true, if_false, List.find?_cons, h2]
+        exact ih
+      · have h1 : (e.1 != p) = true := by simpa using he
+        simp only [List.filter_cons, h1, if_true, List.find?_cons]
+        cases (e.1 == q)
+        · exact ih
+        · rfl
 
 end Locate
 
